@@ -230,7 +230,11 @@ def run_case(case: dict) -> dict:
         # the multi-process case: counters are per process, keep it to the parent's calls
         import time
         budget_end = time.monotonic() + (600.0 if case["all_torn"] else 240.0)
-        for index, point in enumerate(points):
+        # visited in a seeded random order, so that a run cut short by the budget still samples the whole
+        # session (its end — merges, final renames, the description — is the most delicate part)
+        visit = list(enumerate(points))
+        rng.shuffle(visit)
+        for index, point in visit:
             if time.monotonic() > budget_end:
                 # per-case time budget: what was visited is what is reported
                 obs["crash_points_skipped_time_budget"] += 1
